@@ -566,6 +566,10 @@ def main_check(prop, modname, clsname, tier, seed):
 
     # -- canary: the comparison must fire on a deliberately wrong model answer -------------------
     canary = canary_selftest(prop, samples)
+    if canary['tried'] and canary['fired'] < canary['tried']:
+        print('INFRA-ERROR: the comparison of %s did not notice a deliberately corrupted model answer '
+              '(%d of %d canaries fired)' % (prop.id, canary['fired'], canary['tried']))
+        return 2
 
     # -- 5: evidence ----------------------------------------------------------------------------
     cov = dict(evaluations=n, distinct_nontrivial=len(keys), samples=samples,
